@@ -15,13 +15,16 @@ E = {
  "C01": ("For the model: every operator expression is reduced by a proved induction (expr_sound) to one-step soundness of | & ~; "
          "'never hangs' is proved for all inputs (eval_expr_no_fuel: the three unbounded loops cannot exhaust their fuel); the value of every "
          "expression is proved to be a union of cells of the arrangement of the operands' boundaries (C01_cellwise), and | and & of two "
-         "simple polygons in the recombination branch are proved sound (C01_union_sound, C01_intersection_sound, C01_difference_sound). The geometric "
-         "heart (recombination bounds the union/intersection) is a named premise (partial). The tie to the code and the property itself "
+         "simple polygons in the recombination branch are proved sound (C01_union_sound, C01_intersection_sound, C01_difference_sound); for "
+         "strictly convex operands (triangles included) simplicity itself is proved (C01_convex_simple), so every hypothesis of "
+         "C01_*_sound_convex is a boolean the check evaluates on generated cases. The geometric "
+         "heart for operands with holes / several components stays a named premise (partial). The tie to the code and the property itself "
          "are checked on every run: model vs implementation on generated general-position operands and nested expressions, and an exact "
          "oracle that evaluates membership at one point of every cell of the edge arrangement.", "7 C01"),
  "C02": ("Theorem C02_polygon: for every polygonal shape of every kind, every point and flag, contains_point equals the region "
          "specification (exact on-edge test, crossing number, shoelace orientation) wherever the tolerance test answers the exact "
-         "question; independent characterisations of the winding number (triangle, reversal, start vertex, inserted vertex). Curved "
+         "question; independent characterisations of the winding number (triangle, reversal, start vertex, inserted vertex; for strictly convex "
+         "polygons winding number 1 / 0 / boundary = strictly left of every edge / right of some edge / otherwise: C02_convex_*). Curved "
          "boundaries and the tolerance zone are partial (known findings F12, F19). Correspondence + oracle on every run.", "7 C02"),
  "C03": ("Proved: singleton rows, composition rules (Connected = all, Disjoint = some/all); the curve-in-shape test at the heart of "
          "`B in A` is SOUND and COMPLETE for polygons -- in general position `J in A` holds iff every point of J is inside or on A "
@@ -29,8 +32,9 @@ E = {
          "on top of it decides subset of regions is not proved (partial; three defects found there were repaired: F10, F11, F22). "
          "Correspondence on all ordered pairs of a pool of shapes, touching boundaries and curved contents + exact subset oracle on every run.", "7 C03"),
  "C04": ("Theorem C04_polygon: for all polygonal shapes of all kinds and a+b <= 14 the quadrature value equals the formal trapezoid "
-         "integrals (moment_spec); Newton-Cotes exactness proved up to 19 nodes; area = shoelace; reversal negates. Curved: oracle "
-         "(exact area, quadrature accuracy for moments). Correspondence + independent formula (sweep to the other axis) on every run.", "7 C04"),
+         "integrals (moment_spec); Newton-Cotes exactness proved up to 19 nodes; area = shoelace; reversal negates. Curved boundaries: the coordinates of a Bezier segment are polynomials in t and the rule is "
+         "EXACT whenever (degree-1)(a+1+b) <= 3 (C04_curved_moments: area for degree <= 5, moments of order <= 2 for quadratics), with "
+         "machine-checked witnesses of inexactness beyond (cubic first moment, sextic area); elsewhere oracle at quadrature accuracy (partial). Correspondence + independent formula (sweep to the other axis) on every run.", "7 C04"),
  "C05": ("Proved: m(~A) = -m(A) edge by edge (reversal), splitting leaves the area unchanged. The inclusion-exclusion identities "
          "themselves rest on the recombination premise of C01 (partial) and are checked exactly on the implementation's results for "
          "every generated pair and nested expression (oracle = the identities, all moments of order <= 2).", "7 C05"),
@@ -57,8 +61,10 @@ E = {
          "repair F4) and that transformations validate before mutating (after repair F5). Code side: exception injection at every k-th "
          "internal call.", "7 C11"),
  "C12": ("Proved: crossing parameters, evaluation, winding numbers, regions, moments commute with translations / scalings (and linear "
-         "maps where true); the absolute tolerances are the only scale dependence (pt_eq scaling lemma). Operator-level invariance is "
-         "checked by correspondence/oracle on transformed cases (partial; known finding F13/F19).", "7 C12"),
+         "maps where true); the absolute tolerances are the only scale dependence (pt_eq scaling lemma). The WHOLE operator pipeline is proved "
+         "translation-equivariant for polygonal shapes (C12_translate_*: T(A) op T(B) is T(A op B) as data for | & - ^ ~, point and shape "
+         "containment, ==; hypotheses: non-empty closed curves, both necessary). Rotations and scalings of the pipeline are "
+         "checked by correspondence/oracle on transformed cases, also with T applied in place to operands already used (partial; known finding F13/F19).", "7 C12"),
  "C13": ("Proved: model of CPython's limit_denominator is total, bounded, in lowest terms, identity below the cap, and its 3.11 and 3.12 "
          "closing tests agree; coordinates are stored unchanged when the denominator is <= 1e9. Exactness of derived values is C14/C15/C04. "
          "Types and exact values of every number are checked on the implementation on every run.", "7 C13"),
